@@ -8415,6 +8415,10 @@ is_cpp_type_legal(CPPType *in_ctype) {
     return true;
   } else if (TypeManager::is_vector_unsigned_char(in_ctype)) {
     return true;
+  } else if (TypeManager::is_scoped_enum(type)) {
+    // A scoped enum is passed as an instance of the Python enum type we
+    // generate for it, which only exists if we export it in this run.
+    return isExportThisRun(type);
   } else if (TypeManager::is_simple(type)) {
     return true;
   } else if (TypeManager::is_pointer_to_simple(type)) {
